@@ -54,6 +54,10 @@ type JApiCore struct {
 	// This property is used for processing INCLUDE keywords.
 	scannersStack *scanner.Stack
 
+	// includeContextDepths holds for each scanner in the scannersStack the number
+	// of explicit contexts which were open when it was pushed.
+	includeContextDepths []int
+
 	// currentContextDirective is current context for adding a child directive.
 	currentContextDirective *directive.Directive
 
